@@ -334,8 +334,8 @@ def histories(ctx, n, maxlen):
 
 
 def run(ctx):
-    constructors(ctx, 600 if ctx.quick else 6000)
-    histories(ctx, 300 if ctx.quick else 3000, 12 if ctx.quick else 40)
+    constructors(ctx, 1500 if ctx.quick else 12000)
+    histories(ctx, 900 if ctx.quick else 6000, 12 if ctx.quick else 40)
 
 
 def replay(ctx, rec):
